@@ -295,14 +295,28 @@ def induction(fn, lp):
             conj.append(x)
     split(c)
     swap = {"<": ">", ">": "<", "<=": ">=", ">=": "<=", "!=": "!=", "==": "=="}
+    groups = []          # candidates that stem from the same comparison: the ones that never step are dropped below
     for x in conj:
         if x.kind == "BinaryOperator" and x.op in swap:
             l, r = x.children
             vl, vr = _var_of(l), _var_of(r)
-            if vl is not None:
-                out.setdefault(vl, {})["bound"] = (x.op, r)
-            elif vr is not None:
-                out.setdefault(vr, {})["bound"] = (swap[x.op], l)
+            grp = []
+            if vl is not None and vl not in out:
+                out[vl] = {"bound": (x.op, r)}
+                grp.append(vl)
+            if vr is not None and vr not in out:
+                out[vr] = {"bound": (swap[x.op], l)}
+                grp.append(vr)
+            # `v + e OP bound` (e.g. off + item_size <= length): v is the induction variable, e an offset
+            for side, other, op_ in ((l, r, x.op), (r, l, swap[x.op])):
+                ss = side.strip()
+                if ss.kind == "BinaryOperator" and ss.op == "+":
+                    for a_, b_ in ((ss.children[0], ss.children[1]), (ss.children[1], ss.children[0])):
+                        va = _var_of(a_)
+                        if va is not None and va not in out:
+                            out[va] = {"bound": (op_, other), "offset": b_}
+                            grp.append(va)
+            groups.append(grp)
         else:
             v = _var_of(x)
             if v is not None:
@@ -336,6 +350,14 @@ def induction(fn, lp):
             if init is None or fn.reaches(init[1].id, n.id):
                 init = (b, n, val)
         info["init"] = init[2] if init else None
+    for grp in groups:
+        if len(grp) > 1 and any(out[v]["steps"] for v in grp):
+            for v in grp:
+                if not out[v]["steps"]:
+                    del out[v]
+        elif len(grp) > 1:
+            for v in grp[1:]:
+                del out[v]
     return out
 
 
